@@ -250,7 +250,7 @@ pub fn start_watchdog() {
                     let dead_worker = PANICS
                         .lock()
                         .iter()
-                        .any(|p| p.thread.starts_with("raindb-") && !p.message.contains("RecvError"));
+                        .any(|p| p.thread.starts_with("raindb-"));
                     let stalled = stall > STALL_LIMIT_MS.load(Ordering::Relaxed)
                         || longest_outstanding_ms() > CALL_LIMIT_MS.load(Ordering::Relaxed)
                         || (dead_worker && longest_outstanding_ms() > 8_000);
